@@ -3,7 +3,8 @@ tolerant/strict error handling of parse_content (C05/C06)."""
 import z3
 
 from pyvc import values as V
-from pyvc.values import Obj, PyList, PyDict, Opaque, zint, simp
+from pyvc.values import Obj, PyList, PyDict, Opaque, AbsVal, Builtin, zint, simp
+from pyvc.interp import PyExc
 from pyvc.contracts import (Contract, FunctionUnit, sym_int, sym_str, sym_bool, sym_intlist, new_obj,
                             resolve_class, make_value)
 from pyvc.smt import forall_range
@@ -12,6 +13,7 @@ from contracts.util import lines, LNC
 
 W = 'pylatexenc.latexwalker._walker.LatexWalker'
 PC = W + '._ParsingContext'
+PCQ = PC
 EXC = 'pylatexenc.latexnodes._exctypes.'
 TOK = 'pylatexenc.latexnodes._token.LatexToken'
 
@@ -213,8 +215,11 @@ def register(reg):
             ('existing-line-col-kept',
              'implies(%s and old(exc_value.lineno) is not None, exc_value.lineno == old(exc_value.lineno) and '
              'exc_value.colno == old(exc_value.colno))' % ISPE),
+            ('located-error-gets-line-and-column',
+             'implies(%s and exc_value.pos is not None, exc_value.lineno is not None and exc_value.colno is not None)' % FILL),
         ] + [('error-' + n, c) for n, c in p2l_post(WW, 'exc_value.lineno', 'exc_value.colno', 'exc_value.pos',
-                                                    FILL + ' and exc_value.pos is not None')] + [
+                                                    FILL + ' and exc_value.pos is not None and exc_value.lineno is not None '
+                                                    'and exc_value.colno is not None')] + [
             ('strict-mode-propagates', 'implies(not %s.tolerant_parsing, not result)' % WW),
             ('other-exceptions-propagate', 'implies(not (%s), not result)' % ISPE),
             ('tolerant-mode-swallows-parse-errors',
@@ -222,7 +227,8 @@ def register(reg):
             ('tolerant-mode-remembers-the-error',
              'implies(%s.tolerant_parsing and %s, self.recovery_from_exception is exc_value)' % (WW, ISPE)),
         ],
-        modifies=['exc_value.lineno', 'exc_value.colno', 'self.recovery_from_exception',
+        modifies=[('exc_value.lineno', ('opt', 'int')), ('exc_value.colno', ('opt', 'int')),
+                  ('self.recovery_from_exception', lambda it, hint, cur=None: cur),
                   (WW + '._line_no_calc', make_calc_field)]))
     units['_ParsingContext.__exit__'] = FunctionUnit(c_exit)
 
@@ -247,11 +253,157 @@ def register(reg):
         modifies=[]))
     units['make_token_reader'] = FunctionUnit(c_mtr)
 
+
+    # ---- parse_content: discharged against the parser interface contract (PIC) ---------------------------------------
+    def mk_pic_parser(it, tr, s):
+        """an arbitrary parser that honours PIC (see contracts/parsers.py)"""
+        ctx = it.ctx
+        kind = ['group_parser', 'math_parser', 'call_parser', 'other_parser'][ctx.choose(4, 'parser kind')]
+        p0 = tr.fields['_pos']
+        if kind == 'call_parser':
+            start = sym_int(it, 'call_token.pos', lo=0)
+            ctx.assume(start <= p0)
+        else:
+            start = None
+        may_eos = (kind == 'other_parser')
+        START = p0 if start is None else start
+
+        def mknode(lo, hi=None):
+            a = ctx.fresh_int('node.pos')
+            e = ctx.fresh_int('node.pos_end') if hi is None else hi
+            o = Obj(resolve_class(it, 'pylatexenc.latexnodes.nodes.LatexNode'), {'pos': a, 'pos_end': e}, tag='node')
+            o.open = True
+            return o, a, e
+
+        def parse(it2, self, args, kwargs):
+            g = it2.ctx.ghost
+            g.setdefault('parse_calls', []).append(dict(kwargs))
+            rd = kwargs['token_reader']
+            n = zint(V.slen(s))
+            new = it2.ctx.fresh_int('reader_after')
+            it2.ctx.assume(z3.And(zint(p0) <= new, new <= n))
+            rd.fields['_pos'] = new
+            out = it2.ctx.choose(3 if may_eos else 2, 'parser outcome')
+            if out == 0:
+                node, a, e = mknode(START, new)
+                it2.ctx.assume(z3.And(a == zint(START), a <= e))
+                if kind in ('group_parser', 'math_parser', 'call_parser'):
+                    it2.ctx.assume(zint(START) < new)
+                delta = None if it2.ctx.choose(2, 'delta') == 0 else AbsVal(it2.ctx.fresh_int('delta'), 'delta')
+                g['pic_result'] = (node, delta)
+                return (node, delta)
+            if out == 2:
+                g['pic_eos'] = True
+                raise PyExc(Obj(resolve_class(it2, EXC + 'LatexWalkerEndOfStream'), {'final_space': '', 'args': ()}), 'PIC')
+            cls = ['LatexWalkerNodesParseError', 'LatexWalkerParseError'][it2.ctx.choose(2, 'error class')]
+            epos = it2.ctx.fresh_int('err.pos')
+            it2.ctx.assume(z3.And(epos >= 0, epos <= n))
+            f = {'pos': epos, 'lineno': None, 'colno': None, 'open_contexts': PyList([]), 'msg': 'm', 's': None,
+                 'error_type_info': None, 'input_source': None, 'args': ()}
+            if cls == 'LatexWalkerNodesParseError':
+                rn = None
+                if it2.ctx.choose(2, 'recovery nodes') == 1:
+                    rn, a, e = mknode(START)
+                    it2.ctx.assume(z3.And(zint(START) <= a, a <= e, e <= n))
+                f.update(recovery_nodes=rn, recovery_parsing_state_delta=None, recovery_at_token=None, recovery_past_token=None)
+                which = it2.ctx.choose(3, 'recovery token')
+                if which:
+                    ta, te, tp = it2.ctx.fresh_int('rtok.pos'), it2.ctx.fresh_int('rtok.pos_end'), it2.ctx.fresh_int('rtok.pre')
+                    it2.ctx.assume(z3.And(zint(p0) <= tp, tp <= ta, ta <= te, te <= n))
+                    tok = new_obj(it2, TOK, {'tok': 'char', 'arg': 'x', 'pos': ta, 'pos_end': te,
+                                             'pre_space': V.sslice(it2.ctx, s, tp, ta), 'post_space': ''}, tag='rtok', is_input=False)
+                    f['recovery_at_token' if which == 1 else 'recovery_past_token'] = tok
+            exc = Obj(resolve_class(it2, EXC + cls), f, tag='exc')
+            g['pic_exc'] = exc
+            raise PyExc(exc, 'PIC')
+        return AbsVal(ctx.fresh_int('parser'), 'parser', methods={'parse': parse},
+                      attrs={'span_start': start, 'kind': kind, 'may_eos': may_eos,
+                             '__class__': Builtin('cls', lambda it2, a, k: None)})
+
+    def setup_pc(it):
+        w = mk_walker(it, calc=False, name='self')
+        s = w.fields['s']
+        pos = sym_int(it, 'token_reader._pos', lo=0)
+        it.ctx.assume(pos <= zint(V.slen(s)))
+        tr = new_obj(it, 'pylatexenc.latexnodes._tokenreader.LatexTokenReader',
+                     {'s': s, '_pos': pos, 'tolerant_parsing': w.fields['tolerant_parsing']}, tag='token_reader')
+        from contracts.tokenizer import mk_parsing_state
+        oc = None if it.ctx.choose(2, 'open context') == 0 else ('ctx', None)
+        return {'self': w, 'parser': mk_pic_parser(it, tr, s), 'token_reader': tr,
+                'parsing_state': mk_parsing_state(it, 'parsing_state', with_context=False), 'open_context': oc}
+
+    PCONTENT = W + '.parse_content'
+    c_assumed = reg.contracts.get(PCONTENT)
+    if c_assumed is None:
+        raise RuntimeError('contracts.collector must be registered before contracts.walker (parse_content contract)')
+    c_assumed.setup = setup_pc
+    c_assumed.requires = c_assumed.requires + [(n, c) for n, c in WALKER_INV]
+    c_assumed.modifies = c_assumed.modifies + [('self._line_no_calc', make_calc_field)]
+    reg.spec('parser_met_end_of_stream')(lambda it: bool(it.ctx.ghost.get('pic_eos')))
+    reg.spec('parser_returned')(lambda it: it.ctx.ghost.get('pic_result'))
+    c_verify = Contract(
+        PCONTENT, setup=setup_pc, requires=c_assumed.requires,
+        ensures=c_assumed.ensures + [
+            ('end-of-stream-gives-no-node-in-both-modes',
+             'implies(parser_met_end_of_stream(), result[0] is None and result[1] is None)'),
+            ('a-successful-parser-result-is-returned-unchanged-in-both-modes',
+             'implies(parser_returned() is not None, result[0] is parser_returned()[0] and '
+             '(result[1] is None) == (parser_returned()[1] is None))')],
+        raises={k: dict(v, ensures=[c for c in v['ensures']]) for k, v in c_assumed.raises.items()},
+        modifies=c_assumed.modifies)
+    c_verify.raises = c_assumed.raises
+    units['parse_content'] = FunctionUnit(c_verify, inline={PCQ + '.__enter__', PCQ + '.__init__', W + '.new_parsing_open_context',
+                                                             PCQ + '.perform_recovery_nodes_and_parsing_state_delta'})
+
+
+    # ---- C06 "equals strict on valid input": where the tolerant flag is read ------------------------------------------
+    def lemma_flag_reads(it):
+        """With the flag read only at error-handling sites, a run on which no parse error object is created
+        executes the same statements in both modes; in strict mode every created error is raised (C05), so
+        'no error object is created' is exactly 'strict mode returns'."""
+        import ast, os
+        allowed = {'LatexWalker.parse_flags', 'LatexWalker.check_tolerant_parsing_ignore_error',
+                   'LatexWalker.make_token_reader', '_pyltxenc2_LatexWalker_get_latex_expression',
+                   'LatexTokenReader.peek_token'}
+        root = it.program.root
+        reads, bad_calls = [], []
+        for dp, dn, fns in os.walk(os.path.join(root, 'pylatexenc')):
+            if any(x in dp for x in ('latex2text', 'latexencode')):
+                continue
+            for f in fns:
+                if not f.endswith('.py') or f == '__main__.py':
+                    continue
+                path = os.path.join(dp, f)
+                tree = ast.parse(open(path, encoding='utf-8').read())
+
+                def visit(node, stack):
+                    for c in ast.iter_child_nodes(node):
+                        st = stack + [c.name] if isinstance(c, (ast.FunctionDef, ast.ClassDef)) else stack
+                        if isinstance(c, ast.Attribute) and c.attr == 'tolerant_parsing' and isinstance(c.ctx, ast.Load):
+                            reads.append(('.'.join(st), '%s:%d' % (os.path.relpath(path, root), c.lineno)))
+                        if isinstance(c, ast.Call) and isinstance(c.func, ast.Attribute) \
+                                and c.func.attr == 'check_tolerant_parsing_ignore_error':
+                            ok = len(c.args) == 1 and isinstance(c.args[0], (ast.Call, ast.Name))
+                            if not ok:
+                                bad_calls.append('%s:%d' % (os.path.relpath(path, root), c.lineno))
+                        visit(c, st)
+                visit(tree, [])
+        outside = sorted(set((q, w) for q, w in reads if q not in allowed))
+        it.ctx.prove('flag-reads:tolerant_parsing is read only by the error-handling entry points', not outside, 'frame',
+                     src='reads elsewhere: %r' % (outside,))
+        it.ctx.prove('flag-reads:check_tolerant_parsing_ignore_error is only handed an error object', not bad_calls, 'frame',
+                     src='other call shapes at %r' % (bad_calls,))
+    from pyvc.contracts import LemmaUnit
+    units['tolerant-flag-reads'] = LemmaUnit('tolerant-flag-reads', lemma_flag_reads)
+
     for k in units:
         contracts.REPLAYERS[k] = replay_walker
-    return {'C20': {k: v for k, v in units.items() if k not in ('check_tolerant_parsing_ignore_error', 'make_token_reader')},
-            'C05': {k: units[k] for k in ('check_tolerant_parsing_ignore_error', '_ParsingContext.__exit__')},
-            'C06': {k: units[k] for k in ('check_tolerant_parsing_ignore_error', '_ParsingContext.__exit__')}}
+    shared = ('check_tolerant_parsing_ignore_error', '_ParsingContext.__exit__', 'parse_content', 'tolerant-flag-reads')
+    return {'C20': {k: v for k, v in units.items() if k not in ('check_tolerant_parsing_ignore_error', 'make_token_reader',
+                                                                  'parse_content', 'tolerant-flag-reads')},
+            'C01': {'parse_content': units['parse_content']},
+            'C05': {k: units[k] for k in shared},
+            'C06': {k: units[k] for k in shared}}
 
 
 NATIVE = PRELUDE + r'''
